@@ -132,6 +132,29 @@ def _generate(api):
     for fn in ('parse_dpi', 'parse_length', 'parse_font_size'):
         dom, ty, cond = parse_fn_cond(api, usrc, fn)
         L.append("Definition usvg_%s_ok (n : %s) : bool := %s." % (fn, dom, cond))
+    # usvg binary: WriteOptions defaults.  Each option's default must be a LITERAL in the code (not another option's value) and agree
+    # with the help text and with the library's `impl Default for WriteOptions`.
+    uraw = api.rd(REL_USVG)
+    dom, ty, cond = parse_fn_cond(api, usrc, 'parse_precision')
+    L.append("Definition usvg_parse_precision_ok (n : %s) : bool := %s." % (dom, cond))
+    params, ret, ubody = rs.find_fn(usrc, 'process')
+    wsrc = strip_comments(api.rd('crates/usvg/src/writer.rs'))
+    dm = re.search(r"impl\s+Default\s+for\s+WriteOptions\s*\{.*?Self\s*\{(.*?)\}", wsrc, re.S)
+    if not dm:
+        raise U("impl Default for WriteOptions not found")
+    for fld, opt in (('coordinates_precision', '--coordinates-precision'), ('transforms_precision', '--transforms-precision')):
+        m = re.search(r"\b%s\s*:\s*args\.%s\.unwrap_or\(\s*(\d+)\s*\)" % (fld, fld), ubody)
+        if not m:
+            raise U("usvg process(): the default of %s is not a literal `args.%s.unwrap_or(N)`" % (fld, fld))
+        hm = re.search(re.escape(opt) + r"\s+NUM.*?\[values:\s*(\d+)\.\.(\d+)\s*\(inclusive\)\]\s*\[default:\s*(\d+)\]", uraw, re.S)
+        if not hm:
+            raise U("usvg help text: values/default of %s not found" % opt)
+        lm = re.search(r"\b%s\s*:\s*(\d+)\s*," % fld, dm.group(1))
+        if not lm:
+            raise U("WriteOptions::default(): %s not found" % fld)
+        L.append("Definition usvg_%s_default : Z := %s.   (* code *)" % (fld, m.group(1)))
+        L.append("Definition usvg_%s_help : Z * Z * Z := (%s, %s, %s).   (* help text: values lo..hi, default *)" % (fld, hm.group(1), hm.group(2), hm.group(3)))
+        L.append("Definition lib_%s_default : Z := %s.   (* usvg::WriteOptions::default() *)" % (fld, lm.group(1)))
     L.append("")
 
     # ---------------------------------------------------------------- enum FitTo
@@ -294,13 +317,52 @@ def _generate(api):
 
     # --export-area-page: draw_pixmap only when the offset box fits i32; Pixmap::new results are checked with `?`
     rb = re.sub(r"\s+", " ", rbody)
-    guard = re.search(r"let \(x, y\) = \(bbox\.x\(\) as i32, bbox\.y\(\) as i32\); if tiny_skia::IntRect::from_xywh\(x, y, pixmap\.width\(\), "
+    guard = re.search(r"let \(x, y\) = \(\(bbox\.x\(\) \* ts\.sx\) as i32, \(bbox\.y\(\) \* ts\.sy\) as i32\); if tiny_skia::IntRect::from_xywh\(x, y, pixmap\.width\(\), "
                       r"pixmap\.height\(\)\)\.is_some\(\) \{ page_pixmap\.draw_pixmap\( x, y,", rb)
+    # the page offset of the exported node: scaled by the page transform (fix 85fde2f) or not
+    om = re.search(r"let \(x, y\) = \((.*?)\); if tiny_skia::IntRect::from_xywh\(x, y,", rb)
+    if not om:
+        raise U("render_svg: the page offset `let (x, y) = ..` not found")
+    off = re.sub(r"\s+", "", om.group(1))
+    if off == "(bbox.x()*ts.sx)asi32,(bbox.y()*ts.sy)asi32":
+        off_scaled = 'true'
+    elif off == "bbox.x()asi32,bbox.y()asi32":
+        off_scaled = 'false'
+    else:
+        raise U("render_svg: unsupported page offset expression %r" % om.group(1))
+    L.append("Definition c20_page_offset_scaled : bool := %s.   (* (bbox.x() * ts.sx) as i32, (bbox.y() * ts.sy) as i32 *)" % off_scaled)
+    # which size the transform of an exported node is fitted to (fix bd4cb7e)
+    tm = re.search(r"let ts = if args\.export_area_page \{ args\.fit_to\.fit_to_transform\((tree|bbox)\.size\(\)\.to_int_size\(\)\) \} else \{ "
+                   r"args\.fit_to\.fit_to_transform\((tree|bbox)\.size\(\)\.to_int_size\(\)\) \}; resvg::render_node\(node, ts,", rb)
+    if tm:
+        src_page, src_plain = tm.group(1), tm.group(2)
+    else:
+        tm = re.search(r"let ts = args\.fit_to\.fit_to_transform\((tree|bbox)\.size\(\)\.to_int_size\(\)\); resvg::render_node\(node, ts,", rb)
+        if not tm:
+            raise U("render_svg: the transform of the exported node has an unexpected shape")
+        src_page = src_plain = tm.group(1)
+    cn = {'tree': 'SrcDoc', 'bbox': 'SrcNode'}
+    L.append("Inductive fit_source := SrcDoc | SrcNode.")
+    L.append("(* %s :: render_svg, --export-id: the size the node's transform is fitted to *)" % REL)
+    L.append("Definition export_fit_source (area_page : bool) : fit_source := if area_page then %s else %s." % (cn[src_page], cn[src_plain]))
     n_draw = len(re.findall(r"\.draw_pixmap\(", rb))
-    n_new = len(re.findall(r"Pixmap::new\(", rb))
-    n_new_checked = len(re.findall(r"Pixmap::new\(size\.width\(\), size\.height\(\)\) \.ok_or_else\(\|\| \"target size is too large\"\.to_string\(\)\)\?", rb))
-    L.append("Definition c20_draw_guard_ok : bool := %s.   (* render_svg: %d draw_pixmap call(s) guarded by IntRect::from_xywh(..).is_some(); %d of %d Pixmap::new checked with `?` *)"
-             % ('true' if (guard and n_draw == 1 and n_new == n_new_checked and n_new >= 1) else 'false', n_draw, n_new_checked, n_new))
+    # all canvas allocations of render_svg go through `new_pixmap(size)?` (fix 943ffd6); the helper has the checked shape
+    n_direct = len(re.findall(r"Pixmap::new\(", rb))
+    n_helper = len(re.findall(r"= new_pixmap\(size\)\?;", rb))
+    try:
+        hp, hr, hb = rs.find_fn(src, 'new_pixmap')
+        hb1 = re.sub(r"\s+", " ", hb)
+        helper_ok = bool(re.match(
+            r"\{ let too_large = \|\| \"target size is too large\"\.to_string\(\); let len = \(size\.width\(\) as usize\) \.checked_mul\(size\.height\(\) as usize\) "
+            r"\.and_then\(\|n\| n\.checked_mul\(4\)\) \.ok_or_else\(too_large\)\?; let mut data: Vec<u8> = Vec::new\(\); "
+            r"data\.try_reserve_exact\(len\)\.map_err\(\|_\| too_large\(\)\)\?; data\.resize\(len, 0\); "
+            r"tiny_skia::Pixmap::from_vec\(data, size\)\.ok_or_else\(too_large\) \}$", hb1.strip()))
+    except U:
+        helper_ok = False
+    L.append("Definition c20_canvas_alloc_ok : bool := %s.   (* render_svg: %d x `new_pixmap(size)?`, %d direct Pixmap::new; helper shape %s *)"
+             % ('true' if (n_helper == 3 and n_direct == 0 and helper_ok) else 'false', n_helper, n_direct, helper_ok))
+    L.append("Definition c20_draw_guard_ok : bool := %s.   (* render_svg: %d draw_pixmap call(s) guarded by IntRect::from_xywh(..).is_some() *)"
+             % ('true' if (guard and n_draw == 1) else 'false', n_draw))
     # ---------------------------------------------------------------- process: order of the steps
     params, ret, pbody = rs.find_fn(src, 'process')
     MARK = [('SParseArgs', r"\bparse_args\s*\("), ('SRead', r"std::fs::read\s*\("), ('SReadStdin', r"read_to_end\s*\("),
